@@ -101,12 +101,15 @@ def pvv (enc : Bytes → Bytes) (pin : Text) (idx : Text) (pan : Text) : Outcome
 
 /-! ## key.py -/
 
-/-- `get_zone_master_key`: XOR of the components as numbers, formatted `:032x` -/
+/-- `get_zone_master_key`: XOR of the components as numbers, formatted with the width of the widest
+    component, at least 32 hex digits (`:0{max(len(p1), len(key_part))}x` starting from 32 zeros) -/
 def combineVal (parts : List Nat) : Nat := parts.foldl (· ^^^ ·) 0
+
+def combineWidth (parts : List Text) : Nat := parts.foldl (fun w p => max w p.length) 32
 
 def combine (parts : List Text) : Outcome Text := do
   let vals ← Outcome.mapO intHex parts
-  .ok ((fmtHexW 32 (combineVal vals)).map hexChar)
+  .ok ((fmtHexW (combineWidth parts) (combineVal vals)).map hexChar)
 
 /-- `calculate_kcv`: leading hex digits of the encryption of 16 zero bytes -/
 def kcv (enc : Bytes → Bytes) (n : Nat) : Text := ((bytesToNibbles (enc (List.replicate 16 0))).map hexChar).take n
